@@ -54,6 +54,20 @@ func handWorld() *gen.World {
 	return w
 }
 
+// handWorldPayload: the hand-written federation plus a mutation whose payload gives access to the query root again
+// (the Relay convention `query: Query`), declared by service a.
+func handWorldPayload() *gen.World {
+	w := handWorld()
+	a := w.Services[0]
+	a.Defs = append(a.Defs, &gen.Def{Kind: "OBJECT", Name: "Payload", Fields: []gen.Field{{Name: "ok", Type: "String"}, {Name: "query", Type: "Query"}}})
+	a.Def("Mutation").Fields = append(a.Def("Mutation").Fields, gen.Field{Name: "doIt", Type: "Payload"})
+	w.Store.Roots["Mutation"]["doIt"] = fake.Val{Kind: fake.VObj, Obj: &fake.Obj{Type: "Payload", Fields: map[string]fake.Val{
+		"ok":    fake.Str("yes"),
+		"query": {Kind: fake.VObj, Obj: &fake.Obj{Type: "Query", Fields: w.Store.Roots["Query"]}},
+	}}}
+	return w
+}
+
 type c02Case struct {
 	WorldSeed int64      `json:"world_seed"`
 	Domain    string     `json:"world_domain,omitempty"` // "" = inD01, "inputs" = string fields taking filter: [FilterIn!]
